@@ -22,6 +22,8 @@ def main():
     rec.wrap_storage()
     rec.wrap_app(srv.application)
     rec.install_audit()
+    if spec.get("watch_hook_group"):
+        rec.watch_hook_group()
     res = []
     last_token = ""
     x_c10.mark("setup-done")
@@ -35,6 +37,11 @@ def main():
             shutil.rmtree(os.path.join(spec["folder"], "collection-root", r["path"].strip("/"), ".Radicale.cache"),
                           ignore_errors=True)
             x_c10.mark("setup-done")
+            res.append(dict(status=0, error=None, api=[], files=[], body=""))
+            continue
+        if r["method"] == "_SLEEP":
+            import time
+            time.sleep(r.get("seconds", 0.5))       # gives a left-over of the hook time to act (strace sees it)
             res.append(dict(status=0, error=None, api=[], files=[], body=""))
             continue
         data = r.get("data")
